@@ -609,3 +609,474 @@ def yacc_norm(m):
     m2 = dict(m)
     m2["assigns"] = [(n, yacc_norm_texpr(t)) for n, t in m["assigns"]]
     return m2
+
+
+# ===========================================================================
+# "Rich" modules: ASN.1 text outside the algebra of the printer model, aimed at the parts of the
+# code generator whose output could depend on something else than the input text (stack
+# tables, sort order of equal keys, pointer/hash order, specialisation order, name-clash
+# marking).  They feed the determinism / file-order / uninitialised-read oracles only (and the
+# textual fixpoint, like the shipped corpus); the model printer does not see them.
+
+STRING_ALPHABETS = {
+    # type -> characters a FROM constraint may draw from (kept inside the type's own alphabet)
+    "IA5String": [chr(c) for c in range(0x20, 0x7f) if chr(c) not in "\"'"],
+    "VisibleString": [chr(c) for c in range(0x20, 0x7f) if chr(c) not in "\"'"],
+    "PrintableString": list("ABCDEFGHIJKLMNOPQRSTUVWXYZabcdefghijklmnopqrstuvwxyz0123456789 ()+,-./:=?"),
+    "NumericString": list("0123456789 "),
+    "UTF8String": [chr(c) for c in range(0x20, 0x7f) if chr(c) not in "\"'"],
+    "BMPString": [chr(c) for c in range(0x20, 0x7f) if chr(c) not in "\"'"],
+    "UniversalString": [chr(c) for c in range(0x20, 0x7f) if chr(c) not in "\"'"],
+}
+
+SKELETON_NAMES = ["NativeInteger", "NativeEnumerated", "NativeReal", "OCTET-STRING", "BIT-STRING"]
+
+RICH_BLOCKS = ["alphabet", "alphabet", "alphabet", "values", "settags", "choice", "param", "ioc", "recursive",
+               "misc", "anon", "components", "intcons", "enumbits"]
+
+
+def alphabet_runs(codes):
+    """maximal runs of consecutive codes"""
+    out, cs = [], sorted(codes)
+    for c in cs:
+        if out and out[-1][1] == c - 1:
+            out[-1][1] = c
+        else:
+            out.append([c, c])
+    return out
+
+
+class Rich:
+    def __init__(self, rng):
+        self.r = rng
+
+    # ---- helpers
+    def fresh(self, st, stem):
+        st["n"] += 1
+        return "%s%s%d" % (st["pfx"], stem, st["n"])
+
+    def add(self, st, ident, text, kind="type"):
+        """kind: type (generates T.c/T.h) | value | class | objset | object | ptype (parameterised template)"""
+        st["lines"].append(text)
+        st["ids"].append((ident, kind))
+
+    def alphabet(self, stype, kinds=None):
+        """returns (ASN.1 text of the FROM argument, set of character codes)"""
+        pool = STRING_ALPHABETS[stype]
+        n = self.r.choice([1, 2, 2, 2, 3, 3, 4, 5])
+        parts, codes = [], set()
+        for _ in range(n):
+            if self.r.chance(3, 5):
+                a = self.r.choice(pool)
+                cand = [c for c in pool if a <= c and ord(c) - ord(a) <= 40
+                        and all(chr(x) in pool for x in range(ord(a), ord(c) + 1))]
+                b = self.r.choice(cand)
+                parts.append('"%s".."%s"' % (a, b))
+                codes |= set(range(ord(a), ord(b) + 1))
+            else:
+                s = "".join(self.r.choice(pool) for _ in range(self.r.range(1, 5)))
+                parts.append('"%s"' % s)
+                codes |= set(map(ord, s))
+        sep = self.r.choice([" | ", "|", " UNION "])
+        return sep.join(parts), codes
+
+    def size_txt(self):
+        a = self.r.range(0, 6)
+        k = self.r.below(4)
+        if k == 0:
+            return "SIZE(%d)" % (a + 1)
+        if k == 1:
+            return "SIZE(%d..%d)" % (a, a + self.r.range(1, 40))
+        if k == 2:
+            return "SIZE(%d..MAX)" % a
+        return "SIZE(%d..%d, ...)" % (a, a + self.r.range(1, 9))
+
+    # ---- blocks; every block appends assignments to st
+    def b_alphabet(self, st):
+        stype = self.r.choice(list(STRING_ALPHABETS))
+        frm, codes = self.alphabet(stype)
+        shape = self.r.below(8)
+        exact = True
+        if shape <= 2:
+            c = "(FROM(%s))" % frm
+        elif shape == 3:
+            c = "(%s ^ FROM(%s))" % (self.size_txt(), frm)
+        elif shape == 4:
+            c = "(FROM(%s) ^ %s)" % (frm, self.size_txt())
+        elif shape == 5:
+            c = "(%s)(FROM(%s))" % (self.size_txt(), frm)
+        elif shape == 6:
+            c = "(FROM(%s))(%s)" % (frm, self.size_txt())
+        else:
+            c = "(FROM(%s, ...))" % frm
+            exact = False
+        t = self.fresh(st, "Alpha")
+        self.add(st, t, "%s ::= %s %s" % (t, stype, c))
+        if exact:
+            st["alph"][t] = (stype, sorted(codes))
+        k = self.r.below(6)
+        if k == 0:      # narrowing of the parent's alphabet
+            sub = sorted(codes)
+            pick = sorted(set(self.r.choice(sub) for _ in range(self.r.range(1, 4))))
+            lit = "|".join('"%s"' % chr(x) for x in pick)
+            t2 = self.fresh(st, "Narrow")
+            self.add(st, t2, "%s ::= %s (FROM(%s))" % (t2, t, lit))
+            st["alph"][t2] = (stype, pick) if exact else None
+            if not exact:
+                st["alph"].pop(t2)
+        elif k == 1 and shape in (0, 1, 2, 7):    # a size on top of the parent's alphabet
+            t2 = self.fresh(st, "Sized")
+            self.add(st, t2, "%s ::= %s (%s)" % (t2, t, self.size_txt()))
+        elif k == 2:    # inside a SEQUENCE, as a member constraint and as a SEQUENCE OF element
+            frm2, _ = self.alphabet(stype)
+            t2 = self.fresh(st, "Holder")
+            self.add(st, t2, "%s ::= SEQUENCE { a %s, b %s (FROM(%s)) OPTIONAL, c SEQUENCE OF %s (FROM(%s)) }"
+                     % (t2, t, stype, frm2, stype, frm))
+        elif k == 3:
+            t2 = self.fresh(st, "ListOf")
+            self.add(st, t2, "%s ::= SET %s OF %s (FROM(%s))" % (t2, self.size_txt(), stype, frm))
+
+    def b_values(self, st):
+        v = self.fresh(st, "lim").lower() if False else "v%s%d" % (st["pfx"].lower(), st["n"] + 1)
+        st["n"] += 1
+        n = self.r.range(1, 300)
+        self.add(st, v, "%s INTEGER ::= %d" % (v, n), "value")
+        t = self.fresh(st, "Bounded")
+        self.add(st, t, "%s ::= INTEGER (%d..%s)" % (t, self.r.range(-5, 0), v))
+        t2 = self.fresh(st, "WithDef")
+        b = "b%s%d" % (st["pfx"].lower(), st["n"])
+        self.add(st, b, "%s BOOLEAN ::= %s" % (b, self.r.choice(["TRUE", "FALSE"])), "value")
+        self.add(st, t2, "%s ::= SEQUENCE { i [0] INTEGER DEFAULT %s, f [1] BOOLEAN DEFAULT %s, s [2] IA5String (SIZE(0..%s)) OPTIONAL, "
+                         "e [3] ENUMERATED { red, green(%d), blue } DEFAULT green, n [4] INTEGER { one(1), two(2) } DEFAULT two }"
+                 % (t2, v, self.r.choice(["TRUE", "FALSE"]), v, self.r.range(3, 9)))
+        if self.r.chance(1, 2):
+            o = "o%s%d" % (st["pfx"].lower(), st["n"])
+            self.add(st, o, "%s OBJECT IDENTIFIER ::= { iso org(3) dod(6) %d %d }" % (o, self.r.below(40), self.r.below(9000)), "value")
+            s = "s%s%d" % (st["pfx"].lower(), st["n"])
+            self.add(st, s, '%s IA5String ::= "%s"' % (s, self.r.choice(["abc", "x y", "Hello"])), "value")
+
+    def tagtxt(self, used):
+        for _ in range(50):
+            cls = self.r.choice(["", "", "APPLICATION ", "PRIVATE ", "UNIVERSAL "])
+            num = self.r.range(0, 40) if cls != "UNIVERSAL " else self.r.range(40, 90)
+            if (cls, num) not in used:
+                used.add((cls, num))
+                return "[%s%d]%s" % (cls, num, self.r.choice(["", " IMPLICIT", " EXPLICIT"]))
+        raise RuntimeError("tags")
+
+    def leaf_txt(self):
+        return self.r.choice(["INTEGER", "BOOLEAN", "NULL", "OCTET STRING", "BIT STRING", "IA5String", "UTF8String", "REAL",
+                              "OBJECT IDENTIFIER", "RELATIVE-OID", "ENUMERATED { a, b, c }", "INTEGER (0..255)",
+                              "OCTET STRING (SIZE(4))", "GeneralizedTime", "UTCTime", "PrintableString", "NumericString (SIZE(1..8))",
+                              "INTEGER (-9223372036854775807..9223372036854775807)", "INTEGER (0..4294967295)",
+                              "BMPString (SIZE(0..5))", "VisibleString", "ObjectDescriptor"])
+
+    def b_settags(self, st):
+        """SET whose members are written in non-canonical tag order (the encoder's member map is sorted)"""
+        used = set()
+        n = self.r.range(2, 7)
+        ms = []
+        for i in range(n):
+            lt = self.leaf_txt()
+            if lt.startswith("ENUMERATED"):
+                lt = "INTEGER"
+            ms.append("m%d %s %s%s" % (i, self.tagtxt(used).replace(" IMPLICIT", "") if "CHOICE" in lt else self.tagtxt(used), lt,
+                                      self.r.choice(["", "", " OPTIONAL"])))
+        if self.r.chance(1, 2):
+            ms.insert(self.r.range(1, len(ms)), "...")
+        t = self.fresh(st, "TagSet")
+        self.add(st, t, "%s ::= SET { %s }" % (t, ", ".join(ms)))
+
+    def b_choice(self, st):
+        """CHOICE / SEQUENCE with untagged members of distinct universal types (tag maps sorted by tag),
+        a CHOICE nested without a tag (its alternatives' tags are merged into the parent's map)"""
+        prims = self.r.shuffle(["INTEGER", "BOOLEAN", "NULL", "OCTET STRING", "BIT STRING", "IA5String", "UTF8String", "REAL",
+                                "OBJECT IDENTIFIER", "ENUMERATED { x, y }", "GeneralizedTime", "PrintableString", "SEQUENCE { q INTEGER }",
+                                "SET { q INTEGER }"])
+        n = self.r.range(2, 6)
+        inner = self.fresh(st, "Inner")
+        self.add(st, inner, "%s ::= CHOICE { %s%s }" % (inner, ", ".join("i%d %s" % (i, p) for i, p in enumerate(prims[:n])),
+                                                       self.r.choice(["", ", ..."])))
+        rest = prims[n:n + self.r.range(1, 4)]
+        outer = self.fresh(st, "Outer")
+        kind = self.r.choice(["CHOICE", "SEQUENCE", "SET"])
+        opt = "" if kind == "CHOICE" else self.r.choice(["", " OPTIONAL"])
+        ms = ["o%d %s%s" % (i, p, opt) for i, p in enumerate(rest)]
+        ms.insert(self.r.range(0, len(ms)), "nested %s%s" % (inner, opt))
+        self.add(st, outer, "%s ::= %s { %s }" % (outer, kind, ", ".join(ms)))
+
+    def b_param(self, st):
+        k = self.r.below(4)
+        if k == 0:
+            p = self.fresh(st, "Coll")
+            self.add(st, p, "%s {T} ::= %s OF T" % (p, self.r.choice(["SET", "SEQUENCE", "SEQUENCE SIZE(1..4)"])), "ptype")
+            t = self.fresh(st, "Bunch")
+            args = [self.r.choice(["REAL", "IA5String", "INTEGER", "BOOLEAN", "OCTET STRING"] + st["simple"][-3:]) for _ in range(self.r.range(1, 3))]
+            self.add(st, t, "%s ::= SEQUENCE { %s }" % (t, ", ".join("f%d %s {%s}" % (i, p, a) for i, a in enumerate(args))))
+        elif k == 1:
+            p = self.fresh(st, "Signed")
+            self.add(st, p, "%s {ToBeSigned} ::= SEQUENCE { tbs ToBeSigned, alg OBJECT IDENTIFIER, sig BIT STRING (SIZE(0..256)) }" % p, "ptype")
+            t = self.fresh(st, "Cert")
+            self.add(st, t, "%s ::= %s { SEQUENCE { version INTEGER, who IA5String (FROM(\"A\"..\"Z\"|\"a\"..\"z\"|\"0-9\")) } }" % (t, p))
+            t2 = self.fresh(st, "Cert")
+            self.add(st, t2, "%s ::= %s { INTEGER (0..%d) }" % (t2, p, self.r.range(1, 999)))
+        elif k == 2:
+            p = self.fresh(st, "Ranged")
+            self.add(st, p, "%s {INTEGER:lo, INTEGER:hi} ::= INTEGER (lo..hi)" % p, "ptype")
+            for _ in range(self.r.range(1, 3)):
+                t = self.fresh(st, "Narrow")
+                a = self.r.range(-100, -1)     # `{5, 40064}` would be lexed as a Tuple {column, row}
+                self.add(st, t, "%s ::= %s {%d, %d}" % (t, p, a, a + self.r.range(0, 70000)))
+        else:
+            p = self.fresh(st, "Pair")
+            self.add(st, p, "%s {A, B} ::= SEQUENCE { a [0] A, b [1] B OPTIONAL, l [2] SEQUENCE OF A }" % p, "ptype")
+            t = self.fresh(st, "Inst")
+            self.add(st, t, "%s ::= CHOICE { x [0] %s {INTEGER, BOOLEAN}, y [1] %s {IA5String, %s {NULL, REAL}} }" % (t, p, p, p))
+
+    def b_ioc(self, st):
+        cls = (self.fresh(st, "cls") + "X").upper().replace("X", "-C")
+        cls = "".join(ch for ch in cls if ch.isalpha() or ch == "-").strip("-") + "-%s" % "ABCDEFGHIJ"[st["n"] % 10]
+        idt = self.r.choice(["INTEGER", "INTEGER", "OBJECT IDENTIFIER"])
+        self.add(st, cls, "%s ::= CLASS { &id %s UNIQUE, &Type } WITH SYNTAX { &Type IDENTIFIED BY &id }" % (cls, idt), "class")
+        n = self.r.range(1, 5)
+        types = self.r.shuffle(["INTEGER", "BOOLEAN", "IA5String", "OCTET STRING", "NULL", "REAL"] + st["simple"][-2:])[:n]
+        ids = self.r.shuffle(list(range(1, 40)))[:n]
+        def idv(i):
+            return str(i) if idt == "INTEGER" else "{ 1 3 6 %d }" % i
+        oset = self.fresh(st, "ObjSet")
+        named = []
+        if self.r.chance(1, 2):
+            on = "obj%s%d" % (st["pfx"].lower(), st["n"])
+            self.add(st, on, "%s %s ::= { %s IDENTIFIED BY %s }" % (on, cls, types[0], idv(ids[0])), "object")
+            named = [on]
+        items = named + ["{ %s IDENTIFIED BY %s }" % (t, idv(i)) for t, i in list(zip(types, ids))[len(named):]]
+        self.add(st, oset, "%s %s ::= { %s%s }" % (oset, cls, " | ".join(items), self.r.choice(["", ", ..."])), "objset")
+        fr = self.fresh(st, "Frame")
+        if self.r.chance(1, 3):
+            p = self.fresh(st, "Content")
+            self.add(st, p, "%s {%s : Set} ::= SEQUENCE { id %s.&id({Set}), value %s.&Type({Set}{@id}) }" % (p, cls, cls, cls), "ptype")
+            self.add(st, fr, "%s ::= SEQUENCE { hdr INTEGER, content %s {{%s}} }" % (fr, p, oset))
+        else:
+            self.add(st, fr, "%s ::= SEQUENCE { ident %s.&id({%s}), value %s.&Type({%s}{@ident})%s }"
+                     % (fr, cls, oset, cls, oset, self.r.choice(["", ", ..."])))
+
+    def b_recursive(self, st):
+        a, b = self.fresh(st, "RecA"), self.fresh(st, "RecB")
+        k = self.r.below(3)
+        if k == 0:
+            self.add(st, a, "%s ::= SEQUENCE { v INTEGER, next %s OPTIONAL }" % (a, a))
+        elif k == 1:
+            self.add(st, a, "%s ::= SEQUENCE { kids SEQUENCE OF %s, other %s OPTIONAL }" % (a, a, b))
+            self.add(st, b, "%s ::= CHOICE { leaf NULL, node %s, many SET OF %s }" % (b, a, b))
+        else:
+            self.add(st, a, "%s ::= CHOICE { one INTEGER, two %s }" % (a, b))
+            self.add(st, b, "%s ::= SET { back [0] %s OPTIONAL, n [1] INTEGER }" % (b, a))
+
+    def b_misc(self, st):
+        t = self.fresh(st, "Misc")
+        used = set()
+        ms = ["m%d [%d] %s%s" % (i, i, self.leaf_txt(), self.r.choice(["", "", " OPTIONAL"])) for i in range(self.r.range(1, 6))]
+        if self.r.chance(1, 2):
+            ms.append("...")
+            if self.r.chance(1, 2):
+                ms.append("ext%d [%d] %s" % (len(ms), len(ms) + 10, self.leaf_txt()))
+                if self.r.chance(1, 2):
+                    ms.append("[[ g1 [30] INTEGER, g2 [31] BOOLEAN OPTIONAL ]]")
+        self.add(st, t, "%s ::= SEQUENCE { %s }" % (t, ", ".join(ms)))
+        if self.r.chance(1, 3):
+            t2 = self.fresh(st, "RealC")
+            self.add(st, t2, "%s ::= REAL (%s)" % (t2, self.r.choice(["0..MAX", "-1.5..1.5", "MIN..3.14", "0 | 1..2"])))
+        if self.r.chance(1, 3):
+            t3 = self.fresh(st, "Contain")
+            self.add(st, t3, "%s ::= OCTET STRING (CONTAINING %s)" % (t3, t))
+        if self.r.chance(1, 3):
+            t4 = self.fresh(st, "Comp")
+            self.add(st, t4, "%s ::= SEQUENCE OF VisibleString" % t4)
+            t5 = self.fresh(st, "Addr")
+            self.add(st, t5, "%s ::= %s (SIZE (1..%d)) (WITH COMPONENT (SIZE (1..%d)))" % (t5, t4, self.r.range(2, 9), self.r.range(2, 40)))
+
+    def b_anon(self, st):
+        """inline anonymous constructed types, several levels (compound names, -fcompound-names)"""
+        def nest(d):
+            if d == 0:
+                return self.leaf_txt()
+            k = self.r.below(4)
+            if k == 0:
+                return "SEQUENCE { a %s, b %s OPTIONAL }" % (nest(d - 1), nest(d - 1))
+            if k == 1:
+                return "CHOICE { a [0] %s, b [1] %s }" % (nest(d - 1), nest(d - 1))
+            if k == 2:
+                return "%s OF %s" % (self.r.choice(["SEQUENCE", "SET"]), nest(d - 1))
+            return "SET { a [0] %s, b [1] %s }" % (nest(d - 1), nest(d - 1))
+        t = self.fresh(st, "Anon")
+        self.add(st, t, "%s ::= SEQUENCE { a %s, b %s }" % (t, nest(2), nest(self.r.range(1, 3))))
+
+    def b_components(self, st):
+        base = self.fresh(st, "Base")
+        self.add(st, base, "%s ::= SEQUENCE { x INTEGER, y BOOLEAN OPTIONAL, ... , z IA5String }" % base)
+        t = self.fresh(st, "Derived")
+        self.add(st, t, "%s ::= SEQUENCE { pre NULL, COMPONENTS OF %s, post REAL }" % (t, base))
+        if self.r.chance(1, 2):
+            t2 = self.fresh(st, "Subset")
+            self.add(st, t2, "%s ::= %s (WITH COMPONENTS { ..., x (0..%d), y ABSENT })" % (t2, base, self.r.range(1, 100)))
+
+    def b_intcons(self, st):
+        g = Gen(self.r, 2)
+        for _ in range(self.r.range(1, 3)):
+            t = self.fresh(st, "Int")
+            c = g.int_constr()
+            self.add(st, t, "%s ::= INTEGER %s" % (t, " ".join(toks_constr(c, lambda a, b: a))))
+            st["simple"].append(t)
+        t = self.fresh(st, "Oct")
+        self.add(st, t, "%s ::= OCTET STRING %s" % (t, " ".join(toks_constr(g.size_constr(), lambda a, b: a))))
+        st["simple"].append(t)
+
+    def b_enumbits(self, st):
+        t = self.fresh(st, "Enum")
+        n = self.r.range(1, 9)
+        vals = self.r.shuffle(list(range(-3, 30)))[:n]
+        items = ["e%d(%d)" % (i, v) for i, v in enumerate(vals)]       # values in non-sorted order: value2enum map is sorted
+        if self.r.chance(1, 2):
+            # additional enumerations (after the marker) must be ascending and above the root's
+            k = self.r.range(1, len(items))
+            tail = sorted(vals[k:])
+            items = items[:k] + ["..."] + ["x%d(%d)" % (i, max(vals[:k]) + 1 + (v - tail[0])) for i, v in enumerate(tail)]
+        self.add(st, t, "%s ::= ENUMERATED { %s }" % (t, ", ".join(items)))
+        st["simple"].append(t)
+        t2 = self.fresh(st, "Bits")
+        bits = self.r.shuffle(list(range(0, 20)))[:self.r.range(1, 6)]
+        self.add(st, t2, "%s ::= BIT STRING { %s } (SIZE(%d..32))" % (t2, ", ".join("b%d(%d)" % (i, v) for i, v in enumerate(bits)), self.r.range(0, 20)))
+
+    def b_skeleton_name(self, st):
+        nm = self.r.choice(SKELETON_NAMES)
+        if nm in [i for i, _ in st["ids"]]:
+            return
+        self.add(st, nm, "%s ::= %s" % (nm, self.r.choice(["INTEGER (0..3)", "SEQUENCE { a INTEGER }", "ENUMERATED { p, q }"])), "skeltype")
+        t = self.fresh(st, "UsesSkel")
+        self.add(st, t, "%s ::= SEQUENCE { n %s, i INTEGER }" % (t, nm))
+
+    def module(self, name, nblocks=None, pfx="", blocks=None, oid=None):
+        """returns {"name", "text", "ids": [(identifier, kind)], "alph": {type: (string type, sorted codes)}, "blocks"}"""
+        st = {"n": 0, "pfx": pfx, "lines": [], "ids": [], "alph": {}, "simple": []}
+        chosen = blocks if blocks is not None else [self.r.choice(RICH_BLOCKS) for _ in range(nblocks or self.r.range(2, 6))]
+        for b in chosen:
+            getattr(self, "b_" + b)(st)
+        if blocks is None and self.r.chance(1, 12):
+            self.b_skeleton_name(st)
+            chosen = chosen + ["skeleton_name"]
+        tagdef = self.r.choice(["AUTOMATIC TAGS ", "AUTOMATIC TAGS ", "", "EXPLICIT TAGS ", "IMPLICIT TAGS "])
+        if any(b in ("choice",) for b in chosen) and tagdef == "IMPLICIT TAGS ":
+            tagdef = "AUTOMATIC TAGS "
+        head = name + (" " + oid if oid else "") + " DEFINITIONS " + tagdef + "::= BEGIN\n"
+        lines = st["lines"]
+        if self.r.chance(1, 3):          # definition order is free in ASN.1: forward references
+            order = self.r.shuffle(list(range(len(lines))))
+            lines = [lines[i] for i in order]
+            st["ids"] = [st["ids"][i] for i in order]
+        return {"name": name, "text": head + "\n".join(lines) + "\nEND\n", "head": head, "lines": lines,
+                "ids": st["ids"], "alph": st["alph"], "blocks": chosen}
+
+
+def rich_with_imports(head, imports, lines):
+    imp = ""
+    if imports:
+        imp = "IMPORTS " + " ".join("%s FROM %s" % (", ".join(ns), m) for ns, m in imports) + ";\n"
+    return head + imp + "\n".join(lines) + "\nEND\n"
+
+
+CLASH_NAMES = ["Info", "Hdr", "Item", "Status", "Key"]
+CLASH_DEFS = ["SEQUENCE { a INTEGER, b BOOLEAN OPTIONAL }", "ENUMERATED { x, y, z }", "INTEGER (0..%d)", "CHOICE { p NULL, q IA5String }",
+              "SET OF INTEGER", "IA5String (FROM(\"A\"..\"F\"|\"0\"..\"%d\"))", "OCTET STRING (SIZE(%d))", "BIT STRING { f0(0), f1(1) }"]
+
+
+def clash_set(rng):
+    """2-3 modules in separate files whose top-level names clash across modules: same type name
+    in two or all modules (different definitions), same value name, optionally an import of a
+    clashing name into a module that does not define it, a parameterised type instantiated from
+    several modules with the clashing types as arguments, a clash with a skeleton file name.
+    Returns a list of modules {"name","text","ids":[(identifier, kind)]} (one file each)."""
+    R = Rich(rng)
+    k = rng.range(2, 3)
+    names = ["Cm%s%d" % ("abc"[i], rng.below(50)) for i in range(k)]
+    shared = rng.shuffle(CLASH_NAMES)[:rng.range(1, 2)]
+    if rng.chance(1, 8):
+        shared.append(rng.choice(SKELETON_NAMES[:3]))
+    defs_in = {}
+    for s in shared:
+        who = list(range(k)) if rng.chance(1, 2) else rng.shuffle(list(range(k)))[:2]
+        defs_in[s] = sorted(who)
+    shared_value = "maxv" if rng.chance(1, 2) else None
+    with_param = rng.chance(1, 3)
+    with_ioc = rng.chance(1, 4)
+    mods, pinst = [], []
+    for i in range(k):
+        pfx = "M%s" % "abc"[i].upper()
+        own = R.module(names[i], pfx=pfx, blocks=[rng.choice(["alphabet", "values", "settags", "enumbits", "misc", "recursive"])
+                                                  for _ in range(rng.range(0, 2))])
+        lines, ids, imports = list(own["lines"]), list(own["ids"]), []
+        for s in shared:
+            if i in defs_in[s]:
+                d = rng.choice(CLASH_DEFS)
+                if "%d" in d:
+                    d = d % rng.range(1, 9)
+                lines.append("%s ::= %s" % (s, d))
+                ids.append((s, "skeltype" if s in SKELETON_NAMES else "type"))
+                u = "%sUse%s" % (pfx, s)
+                lines.append("%s ::= SEQUENCE { one %s, many SEQUENCE OF %s, opt [5] %s OPTIONAL }" % (u, s, s, s))
+                ids.append((u, "type"))
+            elif rng.chance(2, 3):
+                src = rng.choice(defs_in[s])
+                imports.append(([s], names[src]))
+                u = "%sImp%s" % (pfx, s)
+                lines.append("%s ::= %s { v %s }" % (u, rng.choice(["SEQUENCE", "SET", "CHOICE"]), s))
+                ids.append((u, "type"))
+        if shared_value and (i < 2 or rng.chance(1, 2)):
+            lines.append("%s INTEGER ::= %d" % (shared_value, rng.range(1, 99)))
+            ids.append((shared_value, "value"))
+            u = "%sLim" % pfx
+            lines.append("%s ::= INTEGER (0..%s)" % (u, shared_value))
+            ids.append((u, "type"))
+        if with_param:
+            if i == 0:
+                lines.append("Boxed {T} ::= SEQUENCE { v T, l SET OF T }")
+                ids.append(("Boxed", "ptypeused"))     # an instantiated template gets a file of its own (all specialisations)
+            else:
+                imports.append((["Boxed{}"], names[0]))
+            arg = [s for s in shared if i in defs_in[s]]
+            u = "%sBox" % pfx
+            lines.append("%s ::= Boxed { %s }" % (u, arg[0] if arg else rng.choice(["INTEGER", "BOOLEAN", "IA5String"])))
+            ids.append((u, "type"))
+            pinst.append(u)
+        if with_ioc:
+            # information-object class and one object in module 0, object set (with the clashing type
+            # names of its own module among the member types) and the table-constrained type in the last
+            if i == 0:
+                lines.append("XCLS ::= CLASS { &id INTEGER UNIQUE, &Type } WITH SYNTAX { &Type IDENTIFIED BY &id }")
+                ids.append(("XCLS", "class"))
+                arg = [s for s in shared if i in defs_in[s]]
+                lines.append("objA XCLS ::= { %s IDENTIFIED BY 1 }" % (arg[0] if arg else "NULL"))
+                ids.append(("objA", "object"))
+            if i == k - 1:
+                imports.append((["XCLS", "objA"], names[0]))
+                arg = [s for s in shared if i in defs_in[s]]
+                lines.append("XSet XCLS ::= { objA | { %s IDENTIFIED BY 2 } | { BOOLEAN IDENTIFIED BY 3 }%s }"
+                             % (arg[0] if arg else "REAL", rng.choice(["", ", ..."])))
+                ids.append(("XSet", "objset"))
+                lines.append("XFrame ::= SEQUENCE { ident XCLS.&id({XSet}), value XCLS.&Type({XSet}{@ident}) }")
+                ids.append(("XFrame", "type"))
+        if rng.chance(1, 3):
+            order = rng.shuffle(list(range(len(lines))))
+            lines, ids = [lines[j] for j in order], [ids[j] for j in order]
+        # merge several imports from the same module
+        merged = {}
+        for ns, m in imports:
+            merged.setdefault(m, [])
+            merged[m] += [n for n in ns if n not in merged[m]]
+        imports = [(ns, m) for m, ns in merged.items()]
+        mods.append({"name": names[i], "text": rich_with_imports(own["head"], imports, lines), "ids": ids, "alph": own["alph"],
+                     "imports": imports})
+    for m in mods:
+        m["param_family"] = (["Boxed"] + pinst) if with_param else []
+        # the template lives in module 0; every module instantiates it
+        m["template_module_automatic"] = with_param and "AUTOMATIC TAGS" in mods[0]["text"].split("BEGIN")[0]
+    return mods
